@@ -67,6 +67,7 @@ structure Checkpoint where
   nLines : Nat
   nToks : Nat
   nLits : Nat
+  nErrs : Nat
   deriving Repr, DecidableEq, Inhabited
 
 /-- Registers replacing the position-valued Rust locals of the three escaping scanners
@@ -233,7 +234,8 @@ def setPendingStat (L : Lexer) (v : Bool) : Lexer :=
 def checkpoint (cfg : Cfg) (L : Lexer) : Lexer :=
   let L := L.dassert cfg L.cp.isNone "assertion failed: self.checkpoint.is_none()"
   { L with cp := some { cur := L.cur, tok := L.tok, modeLen := L.modesR.length,
-                        nLines := L.linesR.length, nToks := L.toksR.length, nLits := L.litsR.length } }
+                        nLines := L.linesR.length, nToks := L.toksR.length, nLits := L.litsR.length,
+                        nErrs := L.errsR.length } }
 
 def clearCheckpoint (L : Lexer) : Lexer := { L with cp := none }
 
@@ -247,7 +249,8 @@ def rollback (L : Lexer) : Lexer :=
              modesR := truncR L.modesR c.modeLen,
              toksR := truncR L.toksR c.nToks,
              linesR := truncR L.linesR c.nLines,
-             litsR := truncR L.litsR c.nLits }
+             litsR := truncR L.litsR c.nLits,
+             errsR := truncR L.errsR c.nErrs }
   | none => L.emitError .InternalErrorMissingCheckpoint
 
 /-- chars of `src` between two byte offsets, `None` when out of range / not on boundaries
